@@ -10,9 +10,24 @@ slots."
 The arithmetic (`nsToMs`, `msToIndex`, `msToNextIndex`, `Slot.NextBpIndex`, `Slot.IsFor`) is
 `Aergo.Gen.Slot`, regenerated from slot.go on every run; these theorems are re-checked against
 whatever was generated. All statements are for every timestamp, interval and producer count
-(no bound). The signature clause is in `Props/C19` (`sign_digest_*`), shared with C19.
+(no bound).
+
+Scope: C09 is a statement about the DPoS consensus (`consensus/impl/dpos`). The other two consensus implementations of
+/repo validate differently on purpose: raft accepts a block from any well-formed key (`raftv2/blockfactory.go`
+`IsBlockValid`: the leader is chosen by the raft protocol, not by time slots), its `VerifyTimestamp` is constantly true
+and its `VerifySign` checks the signature only; sbp (single block producer, a test consensus) checks nothing. "Slot",
+"index of the current producer set" and "two or more slots ahead" have no meaning there.
+
+Second part (section "Acceptance"): the three checks the DPoS object runs on every block (`DPoS.VerifySign`,
+`DPoS.VerifyTimestamp`, `DPoS.IsBlockValid`, model `Aergo.Producer`), their conjunction `accept` characterised by an
+independent specification `Legit` (slots as half-open millisecond intervals, list positions, an abstract signature
+primitive over the regenerated signed-message field list), and "current producer set": the list `bp.Snapshots` has put
+in force is, after every history of connected blocks, reorganisations and restarts, the ranking at the last election
+boundary at least one period below the node's best block (`producer_set_is_ranking`), so that every block a node ever
+accepted was signed by the producer that list entitles (`accepted_only_legit`).
 -/
 import Aergo.Model.Slot
+import Aergo.Lemmas.Producer
 
 namespace Aergo.Props.C09
 open Aergo.Gen.Slot Aergo.Slot
@@ -193,5 +208,253 @@ theorem nextIndex_nonneg (iv ns : Int) (hiv : 0 < iv) (hns : 0 ≤ ns) :
     rw [Int.tdiv_eq_ediv_of_nonneg hns]; exact Int.ediv_nonneg hns (by omega)
   rw [Int.tdiv_eq_ediv_of_nonneg (by omega)]
   exact Int.ediv_nonneg (by omega) (by omega)
+
+/-! ## Acceptance: signature, producer, timestamp -/
+
+open Aergo.Producer Aergo.Enc Aergo.Gen.Enc Aergo.Gen.Snap
+
+/-- `DPoS.VerifySign` accepts exactly when the key carried in the header unmarshals and the primitive verifies the
+header's `Sign` over the signed message with THAT key (`!valid || err != nil` ⇒ refused: an invalid signature by a
+well-formed key, a malformed signature, an empty one, a bad key are all refused). -/
+theorem verifySign_iff {Key : Type} (c : Crypto Key) (r : Rec) :
+    dposVerifySign c r = true ↔
+      ∃ k, c.unmarshal (r.raw "PubKey") = some k ∧ c.verify k (encode blockSignSpec r) (r.raw "Sign") = some true := by
+  simp only [dposVerifySign, blockVerifySign]
+  cases hu : c.unmarshal (r.raw "PubKey") with
+  | none => simp
+  | some k =>
+    cases hv : c.verify k (encode blockSignSpec r) (r.raw "Sign") with
+    | none => simp [hv]
+    | some v => cases v <;> simp [hv]
+
+/-- The signed message reads every header field except the signature itself (over the regenerated field lists; a
+finite table, checked by evaluation). "Complete header" in the property's sense; see `Props/C19` for what a field
+change does to the message. -/
+theorem signed_message_reads_all_but_sign :
+    ∀ f ∈ names blockHashSpec, f ≠ "Sign" → f ∈ names blockSignSpec := by decide
+
+/-- The half-open millisecond interval that is slot `k`, in the property's words. -/
+def InSlot (iv ms k : Int) : Prop := iv * (k - 1) < ms ∧ ms ≤ iv * k
+
+theorem inSlot_next (iv ms : Int) (hiv : 0 < iv) (hms : 0 < ms) : InSlot iv ms (msToNextIndex iv ms) := by
+  have ⟨a, b⟩ := slots_partition iv ms hiv hms
+  refine ⟨?_, b⟩
+  rw [Int.mul_sub, Int.mul_one]; exact a
+
+theorem inSlot_unique (iv ms k : Int) (hiv : 0 < iv) (hms : 0 < ms) (h : InSlot iv ms k) : msToNextIndex iv ms = k := by
+  refine slot_of_instant_unique iv ms k hiv hms ?_ h.2
+  have := h.1
+  rw [Int.mul_sub, Int.mul_one] at this; exact this
+
+theorem inSlot_pos (iv ms k : Int) (hiv : 0 < iv) (hms : 0 < ms) (h : InSlot iv ms k) : 0 < k := by
+  apply Classical.byContradiction
+  intro hk
+  have : iv * k ≤ 0 := Int.mul_nonpos_of_nonneg_of_nonpos (by omega) (by omega)
+  have := h.2
+  omega
+
+/-- `DPoS.VerifyTimestamp` = "the block's slot is less than two slots ahead of the local clock's slot, and the block
+number is above the last irreversible block (when the node has a finality status)". -/
+theorem verifyTimestamp_iff (iv tsNs nowNs : Int) (lib : Option Int) (no : Int)
+    (hiv : 0 < iv) (hts : 0 < nsToMs tsNs) (hnow : 0 < nsToMs nowNs) :
+    verifyTimestamp iv tsNs nowNs lib no = true ↔
+      (∃ sl sn, InSlot iv (nsToMs tsNs) sl ∧ InSlot iv (nsToMs nowNs) sn ∧ sl < sn + 2) ∧ (∀ l, lib = some l → l < no) := by
+  have e1 := inSlot_next iv (nsToMs tsNs) hiv hts
+  have e2 := inSlot_next iv (nsToMs nowNs) hiv hnow
+  simp only [verifyTimestamp, isFuture, fromUnixNs]
+  constructor
+  · intro h
+    by_cases hf : msToNextIndex iv (nsToMs tsNs) ≥ msToNextIndex iv (nsToMs nowNs) + 2
+    · simp [hf] at h
+    · refine ⟨⟨_, _, e1, e2, by omega⟩, ?_⟩
+      intro l hl
+      subst hl
+      simp only [hf, decide_false, Bool.false_eq_true, if_false] at h
+      by_cases hle : no ≤ l
+      · simp [hle] at h
+      · omega
+  · rintro ⟨⟨sl, sn, h1, h2, h3⟩, hlib⟩
+    rw [← inSlot_unique iv _ sl hiv hts h1, ← inSlot_unique iv _ sn hiv hnow h2] at h3
+    have hf : ¬ msToNextIndex iv (nsToMs tsNs) ≥ msToNextIndex iv (nsToMs nowNs) + 2 := by omega
+    simp only [hf, decide_false, Bool.false_eq_true, if_false]
+    cases lib with
+    | none => rfl
+    | some l =>
+      have := hlib l rfl
+      have : ¬ no ≤ l := by omega
+      simp [this]
+
+private theorem index_of_pos (ids : List String) (id : String) (pos : Nat) (hnd : ids.Nodup)
+    (h : ids[pos]? = some id) : bpID2Index ids id = pos := by
+  have hm : id ∈ ids := List.mem_of_getElem? h
+  obtain ⟨k, hk, hg, he⟩ := index_member ids id hm
+  have : k = pos := (List.getElem?_inj hk hnd).1 (by rw [hg, h])
+  rw [he, this]
+
+/-- `DPoS.IsBlockValid` = "the key in the header has a peer id, that id stands at some position of the producer list,
+and that position is the slot number of the timestamp modulo the list length". -/
+theorem isBlockValidK_iff (iv : Int) (ids : List String) (key : Option String) (tsNs : Int)
+    (hiv : 0 < iv) (hts : 0 < nsToMs tsNs) (hpos : 0 < ids.length) (hlen : ids.length < 65535) (hnd : ids.Nodup) :
+    isBlockValidK iv ids key tsNs = true ↔
+      ∃ id, key = some id ∧ ∃ (pos : Nat) (sl : Int), ids[pos]? = some id ∧ InSlot iv (nsToMs tsNs) sl
+        ∧ sl % (ids.length : Int) = pos := by
+  have e1 := inSlot_next iv (nsToMs tsNs) hiv hts
+  have hnn : 0 ≤ (fromUnixNs iv tsNs).nextIndex := by
+    have := inSlot_pos iv _ _ hiv hts e1
+    simp only [fromUnixNs]; omega
+  constructor
+  · intro h
+    cases key with
+    | none => simp [isBlockValidK] at h
+    | some id =>
+      simp only [isBlockValidK] at h
+      obtain ⟨hm, ho⟩ := blockValid_sound iv ids id tsNs hpos hlen hnn h
+      obtain ⟨k, hk, hg, he⟩ := index_member ids id hm
+      refine ⟨id, rfl, k, _, hg, e1, ?_⟩
+      rw [he] at ho
+      simp only [owner, Slot_NextBpIndex, fromUnixNs] at ho
+      simp only [fromUnixNs] at hnn
+      rw [Int.tmod_eq_emod_of_nonneg hnn] at ho
+      exact ho.symm
+  · rintro ⟨id, rfl, pos, sl, hg, hs, hmod⟩
+    simp only [isBlockValidK]
+    apply blockValid_complete
+    rw [index_of_pos ids id pos hnd hg]
+    have hsl := inSlot_unique iv _ sl hiv hts hs
+    simp only [owner, Slot_NextBpIndex, fromUnixNs, hsl]
+    have := inSlot_pos iv _ sl hiv hts hs
+    rw [Int.tmod_eq_emod_of_nonneg (by omega)]
+    exact hmod.symm
+
+/-- The property's acceptance condition, stated without the code's arithmetic: ONE key — the key carried in the
+header — verifies the signature over the signed message AND has the peer id that stands in the producer list at
+the position owning the slot; the slot is less than two ahead of the clock's; the block is above the last
+irreversible block. -/
+structure Legit {Key : Type} (c : Crypto Key) (iv : Int) (ids : List String) (nowNs : Int) (lib : Option Int)
+    (r : Rec) (no tsNs : Int) : Prop where
+  signed_by_owner : ∃ k, c.unmarshal (r.raw "PubKey") = some k
+    ∧ c.verify k (encode blockSignSpec r) (r.raw "Sign") = some true
+    ∧ ∃ id, c.peerId k = some id ∧ ∃ (pos : Nat) (sl : Int), ids[pos]? = some id ∧ InSlot iv (nsToMs tsNs) sl
+        ∧ sl % (ids.length : Int) = pos
+  not_future : ∃ sl sn, InSlot iv (nsToMs tsNs) sl ∧ InSlot iv (nsToMs nowNs) sn ∧ sl < sn + 2
+  above_lib : ∀ l, lib = some l → l < no
+
+/-- **A block passes the three consensus checks exactly when it is legitimate.** (Instants after the first
+millisecond of the epoch, 1..65534 distinct producers.) -/
+theorem accept_iff {Key : Type} (c : Crypto Key) (iv : Int) (ids : List String) (nowNs : Int) (lib : Option Int)
+    (r : Rec) (no tsNs : Int)
+    (hiv : 0 < iv) (hts : 0 < nsToMs tsNs) (hnow : 0 < nsToMs nowNs)
+    (hpos : 0 < ids.length) (hlen : ids.length < 65535) (hnd : ids.Nodup) :
+    accept c iv ids nowNs lib r no tsNs = true ↔ Legit c iv ids nowNs lib r no tsNs := by
+  simp only [accept, Bool.and_eq_true]
+  rw [verifyTimestamp_iff iv tsNs nowNs lib no hiv hts hnow, verifySign_iff,
+    isBlockValidK_iff iv ids _ tsNs hiv hts hpos hlen hnd]
+  constructor
+  · rintro ⟨⟨⟨hf, hl⟩, k, hk, hv⟩, id, hid, hrest⟩
+    refine ⟨⟨k, hk, hv, id, ?_, hrest⟩, hf, hl⟩
+    simpa [bpid, hk] using hid
+  · rintro ⟨⟨k, hk, hv, id, hid, hrest⟩, hf, hl⟩
+    exact ⟨⟨⟨hf, hl⟩, k, hk, hv⟩, id, by simp [bpid, hk, hid], hrest⟩
+
+/-- Each defect alone is refused: wrong or malformed signature, unknown key, non-member, member in another slot,
+timestamp two slots ahead (corollaries of `accept_iff`, kept as a readable list). -/
+theorem accept_refuses {Key : Type} (c : Crypto Key) (iv : Int) (ids : List String) (nowNs : Int) (lib : Option Int)
+    (r : Rec) (no tsNs : Int) :
+    (dposVerifySign c r = false → accept c iv ids nowNs lib r no tsNs = false)
+    ∧ (verifyTimestamp iv tsNs nowNs lib no = false → accept c iv ids nowNs lib r no tsNs = false)
+    ∧ (isBlockValidK iv ids (bpid c r) tsNs = false → accept c iv ids nowNs lib r no tsNs = false) := by
+  simp only [accept]
+  refine ⟨?_, ?_, ?_⟩ <;> intro h <;> simp [h]
+
+/-- Non-vacuity (a test on sample values): with a primitive that accepts exactly the signature `[1]` under key "c",
+the 3-producer list of the example above accepts that block at t = 1.5 s when the clock shows 1.2 s, and refuses it
+when the signature is empty, when the clock is two slots behind, and below the last irreversible block. -/
+example :
+    let c : Crypto String := { unmarshal := fun b => if b == [7] then some "c" else none,
+                               verify := fun _ _ sig => if sig.isEmpty then none else some (sig == [1]), peerId := some }
+    let hdr (sig : Bytes) : Rec := { raw := fun f => if f == "PubKey" then [7] else if f == "Sign" then sig else [], num := fun _ => 0 }
+    accept c 1000 ["a", "b", "c"] 1200000000 (some 3) (hdr [1]) 4 1500000000 = true
+    ∧ accept c 1000 ["a", "b", "c"] 1200000000 (some 3) (hdr []) 4 1500000000 = false
+    ∧ accept c 1000 ["a", "b", "c"] 1200000000 (some 3) (hdr [2]) 4 1500000000 = false
+    ∧ accept c 1000 ["a", "b", "c"] 200000000 (some 3) (hdr [1]) 4 2500000000 = false
+    ∧ accept c 1000 ["a", "b", "c"] 1200000000 (some 4) (hdr [1]) 4 1500000000 = false := by decide
+
+/-! ## The current producer set -/
+
+/-- `snapBlockNo b` is the last election boundary at least one full period below `b` (0 = genesis list during the
+first three periods), and nothing else is. Over the regenerated `snapBlockNo` / election period. -/
+theorem snapBlockNo_spec (b : Int) (hb : 0 ≤ b) :
+    (b < 3 * getElectionPeriod → snapBlockNo b = 0) ∧
+    (3 * getElectionPeriod ≤ b →
+      snapBlockNo b % getElectionPeriod = 0 ∧ snapBlockNo b + getElectionPeriod ≤ b
+        ∧ b < snapBlockNo b + 2 * getElectionPeriod) := by
+  rw [snapBlockNo_eq b hb]
+  constructor
+  · intro h; rw [if_pos h]
+  · intro h
+    rw [if_neg (by omega)]
+    simp only [getElectionPeriod] at *
+    omega
+
+theorem snapBlockNo_unique (b r : Int) (hb : 0 ≤ b) (h3 : 3 * getElectionPeriod ≤ b)
+    (h1 : r % getElectionPeriod = 0) (h2 : r + getElectionPeriod ≤ b) (h4 : b < r + 2 * getElectionPeriod) :
+    r = snapBlockNo b := by
+  have := (snapBlockNo_spec b hb).2 h3
+  simp only [getElectionPeriod] at *
+  omega
+
+/-- **Current producer set.** Start a DPoS node on a genesis list and let any history happen: blocks offered (and
+connected when they pass the three checks), reorganisations back to any block of the chain, restarts. Then the
+list the node has in force (`Cluster`) is the specified one: the genesis list while the best block is below three
+election periods, else the ranking in the state of block `snapBlockNo best` of the node's OWN current chain.
+Snapshots left over from an abandoned branch never surface (part of the invariant; `AddSnapshot`'s reset on
+reorganisation is dead code in /repo since `maxRefBlockNo` is never assigned, and is not needed).
+Hypothesis: every ranking consists of decodable peer ids — otherwise see `stale_set_after_undecodable_id`. -/
+theorem producer_set_is_ranking {Key : Type} (c : Crypto Key) (iv : Int) (genesis : List String) (evs : List Ev)
+    (hg : RankOk genesis) (hev : ∀ ev ∈ evs, EvOk ev) :
+    let n := (Node.init genesis).run c iv evs
+    some n.sn.members = specSet genesis n.ranks n.best ∧ n.sn.size = n.sn.members.length
+      ∧ n.ranks.length = n.best.toNat + 1 := by
+  have hi := Inv.init genesis hg
+  have h := run_inv c iv evs (Node.init genesis) hi hev (by intro a ha; simp [Node.init] at ha)
+  have hgen : (Node.init genesis).sn.genesis = genesis := by
+    have hs : snapBlockNo 0 = 0 := by decide
+    have : genesis.all idOk = true := hg
+    simp [Node.init, boot, updateCluster, getCurrent, hs, this]
+  obtain ⟨hinv, hge, _⟩ := h
+  refine ⟨?_, hinv.size_eq, hinv.len⟩
+  have := hinv.current
+  rw [hge, hgen] at this
+  exact this
+
+/-- **Accepted only if legitimate, over all histories.** Every block a DPoS node ever put on its chain passed the
+three checks with the producer list in force at that moment, and that list was the one the election rule specifies
+for the chain the block extended; hence (by `accept_iff`) its signature verifies over the complete header with the
+key in the header, that key is the specified producer owning the slot, and the timestamp was less than two slots
+ahead of the clock. -/
+theorem accepted_only_legit {Key : Type} (c : Crypto Key) (iv : Int) (genesis : List String) (evs : List Ev)
+    (hg : RankOk genesis) (hev : ∀ ev ∈ evs, EvOk ev)
+    (hiv : 0 < iv) (a : Accepted) (ha : a ∈ ((Node.init genesis).run c iv evs).log)
+    (hts : 0 < nsToMs a.blk.tsNs) (hnow : 0 < nsToMs a.nowNs)
+    (hpos : 0 < a.ids.length) (hlen : a.ids.length < 65535) (hnd : a.ids.Nodup) :
+    Legit c iv a.ids a.nowNs none a.blk.hdr a.blk.no a.blk.tsNs
+      ∧ some a.ids = specSet genesis a.ranks (a.blk.no - 1) := by
+  have hi := Inv.init genesis hg
+  have h := run_inv c iv evs (Node.init genesis) hi hev (by intro a ha; simp [Node.init] at ha)
+  have hgen : (Node.init genesis).sn.genesis = genesis := by
+    have hs : snapBlockNo 0 = 0 := by decide
+    have : genesis.all idOk = true := hg
+    simp [Node.init, boot, updateCluster, getCurrent, hs, this]
+  have hl := h.2.2 a ha
+  rw [hgen] at hl
+  exact ⟨(accept_iff c iv a.ids a.nowNs none a.blk.hdr a.blk.no a.blk.tsNs hiv hts hnow hpos hlen hnd).1 hl.1, hl.2.1⟩
+
+/-- The hypothesis `RankOk` is needed, and what happens without it is what /repo does (`UpdateCluster` logs "skip BP
+member update" and returns): one undecodable entry in the elected ranking and the OLD list stays in force.
+(Witness on sample values; reproduced on the real `Status.Update` by harness c09, sessions `+faults`.) -/
+theorem stale_set_after_undecodable_id :
+    let s : Snaps := { snaps := [(200, ["x", "!y"])], maxRef := 0, genesis := ["a"], members := ["a"], size := 1 }
+    (updateCluster s 300 none).1.members = ["a"] ∧ specSet s.genesis [[], [], []] 300 ≠ some ["a"] := by
+  decide
 
 end Aergo.Props.C09
